@@ -364,6 +364,36 @@ func filePaths(f formats.Format) any {
 			bad("ParseFileWithOptions with the format stated gives (%s, %v)", js(bigSummary(withFmt)), oerr)
 		}
 	}
+	// a link to the written file is the written file
+	link := dir + "/latest.json"
+	_ = os.Remove(link)
+	if err := os.Symlink(path, link); err == nil {
+		sf, serr := (&formats.Sniffer{}).SniffFile(link)
+		if serr != nil || sf != f {
+			bad("SniffFile through a symbolic link to a %s document gives (%q, %v)", f, sf, serr)
+		}
+		if d, err := reader.New().ParseFile(link); err != nil || len(d.GetNodeList().GetNodes()) != len(short.NodeList.Nodes) {
+			bad("ParseFile through a symbolic link gives %d nodes (error %v)", len(d.GetNodeList().GetNodes()), err)
+		}
+	}
+	// a writer whose format is set after construction writes in the format it has now
+	for _, first := range roundTripFormats {
+		if first == f {
+			continue
+		}
+		wc := writer.New(writer.WithFormat(first))
+		b0 := nopCloser{&bytes.Buffer{}}
+		_ = wc.WriteStream(short, b0)
+		wc.Options.Format = f
+		b1 := nopCloser{&bytes.Buffer{}}
+		if err := wc.WriteStream(short, b1); err != nil {
+			bad("a writer built for %s and then set to %s fails: %v", first, f, err)
+			continue
+		}
+		if got, err := (&formats.Sniffer{}).SniffReader(bytes.NewReader(b1.Bytes())); err != nil || got != f {
+			bad("a writer built for %s and then set to %s writes output detected as %q (%v)", first, f, got, err)
+		}
+	}
 	// the options of a call override the writer's, in the file variant as in the stream variant:
 	// writers of every other format, and one whose own format nothing is registered for
 	for _, own := range append(append([]formats.Format{}, roundTripFormats...), "verif/none", "") {
@@ -579,6 +609,25 @@ func storeWrappers() any {
 		if err := wn.Store(noMeta); err == nil {
 			bad("Writer.Store of a document without metadata returns no error (NoClobber %v)", nc)
 		}
+	}
+	for _, id := range []string{strings.Repeat("漢", 30), strings.Repeat("🙂", 20), "../" + strings.Repeat("я/", 25), strings.Repeat("é", 40)} {
+		func() {
+			defer func() {
+				if rec := recover(); rec != nil {
+					bad("Reader.Retrieve of an unknown identifier of %d bytes / %d characters panicked: %v", len(id), len([]rune(id)), rec)
+				}
+			}()
+			if _, err := r.Retrieve(id); err == nil {
+				bad("Reader.Retrieve of an unknown identifier returns no error")
+			}
+			d := bigDoc(1, 16)
+			d.Metadata.Id = id
+			if err := w.Store(d); err != nil {
+				bad("store under an identifier of %d characters fails: %v", len([]rune(id)), err)
+			} else if got, err := r.Retrieve(id); err != nil || !proto.Equal(got, d) {
+				bad("a document stored under an identifier of %d characters does not come back (error %v)", len([]rune(id)), err)
+			}
+		}()
 	}
 	if _, err := r.Retrieve("urn:wrap:unknown"); err == nil {
 		bad("Reader.Retrieve of an unknown identifier returns no error")
@@ -1075,7 +1124,7 @@ func bigOpProps(op M) []string {
 	case "failedWriteThenWrite":
 		return []string{"C01", "C02", "C07"}
 	case "readerReuse":
-		return []string{"C05", "C18"}
+		return []string{"C01", "C02", "C05", "C18"}
 	case "sniffLong":
 		return []string{"C04", "C06"}
 	case "registryChurn":
